@@ -154,6 +154,18 @@ def RET(value):
     return ("ret", value)
 
 
+def CANCEL(kind):
+    return ("cancel", kind)
+
+
+def WAITPRE(key):
+    return ("waitpre", key)
+
+
+def STASH(key, td):
+    return ("stash", key, td)
+
+
 NONE = ("none",)
 
 
@@ -226,6 +238,10 @@ class RT(object):
         self.item_computed = collections.Counter()
         self.items = {}                     # sid -> item
         self.item_flush = {}                # sid -> index into flush_log
+        self.item_cancel = {}               # sid -> error its batch was cancelled with
+        self.precreated = {}                # key -> task created at top level before the computation
+        self.stash = {}                     # key -> task created inside a task, waited for afterwards
+        self.ended = False
         self.wait_stack = []                # tasks being waited for synchronously
         self.problems = []                  # monitor violations (concrete strings)
         self.ctx_log = []                   # ('resume'|'pause', cid, running sid or None, clock)
@@ -303,6 +319,9 @@ class _AttrTarget(object):
 # harness batches
 
 
+STALE_FLUSHES = []      # batches of an already ended computation that were flushed later (C08 histories)
+
+
 class HBatch(_batching.BatchBase):
     def __init__(self, rt, kind):
         _batching.BatchBase.__init__(self)
@@ -339,6 +358,12 @@ class HBatch(_batching.BatchBase):
         if self.rt.active.get(self.kind) is self:
             self.rt.active[self.kind] = HBatch(self.rt, self.kind)
 
+    def _cancel(self):
+        err = self.error()
+        for it in self.items:
+            if not _batching.BatchItemBase.is_computed(it):
+                self.rt.item_cancel[it.sid] = err
+
     def get_priority(self):
         rt = self.rt
         if rt.prio_mode == "default":
@@ -361,6 +386,15 @@ class HBatch(_batching.BatchBase):
             rt.item_flush[it.sid] = idx
         if "c06" in rt.monitors:
             mon_c06_flush(rt, self)
+        if rt.ended:
+            STALE_FLUSHES.append(repr(self))
+        if not entry["sched"] and not rt.running and rt.in_flush == 0:
+            # nobody asked for this flush: neither the scheduler (no 'before' event) nor user code
+            # (no task body or flush body is executing).  It was forced by unwrapping the yielded
+            # structure of a task that was resumed while one of its items was still pending.
+            rt.problem("c03", "a task was resumed while a batch item it yielded was uncomputed "
+                              "(batch %r flushed implicitly by the resumption)" % (self,))
+            rt.problem("c04", "batch %r flushed implicitly, outside the scheduler's flush step" % (self,))
         rt.in_flush += 1
         try:
             if rt.flush_hook is not None:
@@ -369,7 +403,9 @@ class HBatch(_batching.BatchBase):
             for it in list(self.items):
                 plan = it.plan
                 if plan == "ok":
-                    it.set_value(item_value(it.kind, it.arg))
+                    # like a real service, the answer of a repeated request is not the first answer:
+                    # a batch whose flush body runs twice corrupts the values the tasks receive
+                    it.set_value(item_value(it.kind, it.arg) + 1000 * (self.flush_calls - 1))
                 elif plan == "err":
                     it.set_error(E(("item", it.sid)))
                 elif plan == "unset":
@@ -406,7 +442,8 @@ class HItem(_batching.BatchItemBase):
         self.rt.item_computed[self.sid] += 1
         # completed "by that flush": after its batch's flush body started and before the batch's
         # own completion was announced (unset items are completed by BatchBase._computed)
-        self.completed_by_flush = (self.sid in self.rt.item_flush) and not self.batch.announced
+        self.completed_by_flush = ((self.sid in self.rt.item_flush) or (self.sid in self.rt.item_cancel)) \
+            and not self.batch.announced
 
     def is_computed(self):
         self.rt.tick()
@@ -563,6 +600,16 @@ class _Obj(object):
         self.v = v
 
 
+def _same_struct(a, b):
+    if type(a) is not type(b):
+        return False
+    if isinstance(a, (list, tuple)):
+        return len(a) == len(b) and all(_same_struct(x, y) for x, y in zip(a, b))
+    if isinstance(a, dict):
+        return list(a.keys()) == list(b.keys()) and all(_same_struct(a[k], b[k]) for k in a)
+    return a is b
+
+
 def _futures_in(futs):
     return [f for f in futs if isinstance(f, _futures.FutureBase)]
 
@@ -608,6 +655,12 @@ def run_node(rt, ts, node):
         rt.running.append(ts.sid)
         rt.ev("step", ts.sid, n + 1)
         _post_yield(rt, ts, n, tmpl, slots, futs, fresh, None)
+        if "c01" in rt.monitors:
+            # the structure the task yielded is the task's own object: it must come back as a NEW
+            # structure of values, the yielded one still holding the futures (it may be shared/reused)
+            again = shape(tmpl, futs)
+            if not _same_struct(struct, again):
+                rt.problem("c01", "the structure yielded by %s at yield %d was modified in place" % (ts.sid, n))
         ts.trace.append(got)
         return None
     if k == "with":
@@ -688,6 +741,29 @@ def run_node(rt, ts, node):
     if k == "call":     # ('call', fn) arbitrary harness callback fn(rt, ts)
         node[1](rt, ts)
         return None
+    if k == "waitpre":  # wait (synchronously, inside this task) for a task that was created at top level
+        t = rt.precreated[node[1]]
+        sid = "PRE:%s" % node[1]
+        rt.wait_stack.append(t)
+        try:
+            v = t.value()
+        finally:
+            rt.wait_stack.pop()
+        if _sched.get_active_task() is not ts.task_obj:
+            rt.problem("c08", "get_active_task() is not the running task after waiting, inside %s, for a task "
+                              "that was created outside it" % ts.sid)
+        ts.trace.append(("sync", v))
+        return None
+    if k == "stash":    # create a task here; it is waited for at top level after this computation
+        sid = "STASH:%s" % node[1]
+        rt.stash[node[1]] = _mk_task(rt, node[2], sid)
+        return None
+    if k == "cancel":   # user code cancels the pending batch of a kind (its items fail with the error)
+        b = rt.active.get(node[1])
+        if b is not None and not b.is_flushed() and b.items:
+            rt.ev("cancel", node[1], b.serial)
+            b.cancel(E(("cancelled", node[1], b.serial)))
+        return None
     raise AssertionError(node)
 
 
@@ -703,6 +779,9 @@ def _post_yield(rt, ts, n, tmpl, slots, futs, fresh, exc):
                     done = f.is_computed()
                 if not done:
                     rt.problem("c03", "task %s resumed at yield %d with an uncomputed future" % (ts.sid, n))
+                    if exc is not None:
+                        rt.problem("c02", "exception delivered to %s at yield %d before every future yielded "
+                                          "alongside it had completed" % (ts.sid, n))
     if "c08" in mons:
         at = _sched.get_active_task()
         if at is not ts.task_obj:
@@ -996,6 +1075,7 @@ class Ref(object):
         self.scope = []                 # dynamic scope: list of (which, value)
         self.sv_init = list(sv_init)
         self.evaluated = []             # sids of tasks evaluated
+        self.pre = {}                   # key -> TaskD of tasks created at top level
         self.blocked = {}               # sid -> whether the task had to wait for a flush
         self.na_depth = 0
 
@@ -1008,6 +1088,8 @@ class Ref(object):
         return self.sv_init[which]
 
     def item_outcome(self, kind, arg, plan, sid):
+        if sid in self.rt.item_cancel:
+            return ("e", desc_of(self.rt.item_cancel[sid]))
         if plan == "ok":
             return ("v", item_value(kind, arg))
         if plan == "err":
@@ -1161,7 +1243,13 @@ class Ref(object):
             return _Ret(node[1])
         if k == "orphan":
             return None
-        if k == "call":
+        if k in ("call", "cancel", "stash"):
+            return None
+        if k == "waitpre":
+            o, _b, _d = self.task(self.pre[node[1]], "PRE:%s" % node[1])
+            if o[0] == "e":
+                raise RefErr(o[1])
+            st["trace"].append(("sync", o[1]))
             return None
         raise AssertionError(node)
 
@@ -1178,7 +1266,7 @@ def outcome_desc(o):
 
 def check_program(td, props, nkinds=2, prio=None, prio_mode="tuple", hash_order=0, conv=0,
                   sv_init=(0, 0), tree_single_kind=False, expect_flushes=None, budget=4000,
-                  flush_hook=None, sig=None):
+                  flush_hook=None, sig=None, precreate=None):
     """Runs `td` on the real scheduler and on the reference; returns True iff every monitor of
     the requested properties held.  `props` is a set of monitor names."""
     rec.clear_fail()
@@ -1187,8 +1275,13 @@ def check_program(td, props, nkinds=2, prio=None, prio_mode="tuple", hash_order=
             sv_init=sv_init, monitors=props)
     rt.flush_hook = flush_hook
     try:
+        for key, ptd in (precreate or {}).items():
+            rt.precreated[key] = _mk_task(rt, ptd, "PRE:%s" % key)
+            rt.tasks["PRE:%s" % key]["yielded"] = True
         real = run_root(rt, td, conv)
-        ok = judge(rt, td, real, props, conv, sv_init, expect_flushes)
+        ok = judge(rt, td, real, props, conv, sv_init, expect_flushes, precreate)
+        if ok and rt.stash:
+            ok = _after_stash(rt, props)
     finally:
         reset_globals()
     nflush = len(rt.flush_log)
@@ -1208,8 +1301,32 @@ def check_program(td, props, nkinds=2, prio=None, prio_mode="tuple", hash_order=
     return ok
 
 
-def judge(rt, td, real, props, conv, sv_init, expect_flushes):
+def _after_stash(rt, props):
+    """Tasks created inside the computation are waited for at top level afterwards."""
+    rt.attach()
+    try:
+        for key, t in rt.stash.items():
+            try:
+                t.value()
+            except Exception as e:
+                reraise_control(e)
+            if "c08" in props:
+                if _sched.get_active_task() is not None:
+                    return rec.fail("get_active_task() is not None at top level after waiting for a task that "
+                                    "was created inside another task")
+                if len(_sched.get_scheduler()._tasks) != 0:
+                    return rec.fail("scheduler retains tasks after a top-level wait for a stashed task")
+        for p, text in rt.problems:
+            if p in props:
+                return rec.fail("%s: %s" % (p, text))
+        return True
+    finally:
+        detach(rt)
+
+
+def judge(rt, td, real, props, conv, sv_init, expect_flushes, precreate=None):
     ref = Ref(rt, sv_init)
+    ref.pre = dict(precreate or {})
     exp, _blk, ref_depth = ref.task(td, root_sid(conv))
     if expect_flushes == "depth":
         expect_flushes = ref_depth
@@ -1283,7 +1400,7 @@ def judge(rt, td, real, props, conv, sv_init, expect_flushes):
                 return rec.fail("context %s resume/pause do not strictly alternate from resume to "
                                 "pause: %r" % (cid, seq))
     for p, text in rt.problems:
-        if p in props or (p == "c05" and "c05prio" in props):
+        if p in props or (p == "c05" and "c05prio" in props) or (p == "c08" and "c01" in props and False):
             return rec.fail("%s: %s" % (p, text))
     return ok
 
@@ -1344,10 +1461,14 @@ def check_history(comps, sig=None):
     each, plus the full oracle of every computation flagged compare=True."""
     rec.clear_fail()
     reset_globals()
+    del STALE_FLUSHES[:]
     ok = True
     nfl = 0
     try:
         for i, c in enumerate(comps):
+            if c.get("check_stale") and STALE_FLUSHES:
+                return rec.fail("computation %d: batch %s of an earlier computation (which had ended with the "
+                                "scheduler reset) was flushed during a later computation" % (i, STALE_FLUSHES[0]))
             props = set(c.get("props", ())) | {"c08"}
             rt = RT(nkinds=c.get("nkinds", 2), prio=c.get("prio"), prio_mode=c.get("prio_mode", "tuple"),
                     hash_order=c.get("hash_order", 0), budget=c.get("budget", 4000),
@@ -1361,6 +1482,9 @@ def check_history(comps, sig=None):
                 if c.get("teardown"):
                     c["teardown"]()
                 detach(rt)
+            rt.ended = True
+            if c.get("no_stale") is not None:
+                pass
             nfl += len(rt.flush_log)
             if real[0] == "e":
                 rec.wit("computation_failed")
@@ -1386,6 +1510,9 @@ def check_history(comps, sig=None):
                              c.get("expect_flushes")):
                     rec.LAST_FAIL[0] = "computation %d of the history: %s" % (i, rec.LAST_FAIL[0])
                     return False
+        if comps and comps[-1].get("check_stale_after") and STALE_FLUSHES:
+            return rec.fail("batch %s of an earlier computation, ended by the runaway-recursion RuntimeError, was "
+                            "flushed during the next computation" % (STALE_FLUSHES[0],))
     finally:
         reset_globals()
     rec.wit("paths")
